@@ -455,13 +455,19 @@ func TestC08(t *testing.T) {
 	}
 	r.Exhaustive(exhaustive)
 	stressC08(t, r)
-	if onlyShape == "" {
+	if onlyShape == "" && !c08StressHung {
 		rawPassesC08(r)
 	}
 	r.Finish(t)
 }
 
 // ---- stress under the race detector
+
+// progressC08 counts operations begun by stress workers; c08StressHung is set when a shape was abandoned as stuck.
+var (
+	progressC08   atomic.Int64
+	c08StressHung bool
+)
 
 func stressC08(t *testing.T, r *ev.Run) {
 	type shape struct {
@@ -572,6 +578,7 @@ func stressC08(t *testing.T, r *ev.Run) {
 					defer wg.Done()
 					rng := rand.New(rand.NewSource(seed*131 + int64(g)))
 					for i := 0; i < sh.ops/sh.workers; i++ {
+						progressC08.Add(1)
 						rc := recs[rng.Intn(len(recs))]
 						s, err := f.GetSession(rc.part)
 						if err != nil {
@@ -602,7 +609,45 @@ func stressC08(t *testing.T, r *ev.Run) {
 					}
 				}()
 			}
-			wg.Wait()
+			// a worker that waits for a lock nobody will ever release (a mutex copied while it was held, say) would keep
+			// the run waiting until the test binary's time limit, without a verdict. Every operation takes micro- to
+			// milliseconds: if not a single worker finishes an operation for three minutes the workers are not slow but
+			// stuck, and that is reported for this shape; the rest of the stress part is skipped.
+			allDone := make(chan struct{})
+			go func() { wg.Wait(); close(allDone) }()
+			stuck := false
+			for last, idle := progressC08.Load(), 0; !stuck; {
+				select {
+				case <-allDone:
+					idle = -1
+				case <-time.After(10 * time.Second):
+				}
+				if idle < 0 {
+					break
+				}
+				if cur := progressC08.Load(); cur != last {
+					last, idle = cur, 0
+				} else if idle++; idle >= 18 {
+					stuck = true
+				}
+			}
+			if stuck {
+				buf := make([]byte, 1<<20)
+				buf = buf[:runtime.Stack(buf, true)]
+				blocked := 0
+				for _, g := range strings.Split(string(buf), "\n\n") {
+					if strings.Contains(g, "sync.Mutex") || strings.Contains(g, "sync.RWMutex") || strings.Contains(g, "[sync.") {
+						if strings.Contains(g, "godaddy/asherah") {
+							blocked++
+						}
+					}
+				}
+				r.Violation("c08-stress-hang", fmt.Sprintf("stress shape %s (seed %d): no worker completed an operation for 180 s of wall clock; %d goroutine(s) are waiting for a lock inside the SDK (an operation that neither succeeds nor fails)", sh.name, seed, blocked), map[string]any{"shape": sh.name, "seed": seed})
+				probe.SetHookSink(nil)
+				sessprog.Tap.SetScan(nil)
+				c08StressHung = true
+				return
+			}
 			probe.SetHookSink(nil)
 			sessprog.Tap.SetScan(nil)
 			r.Count("stress_log_yield_points", logYields.Load())
